@@ -110,4 +110,82 @@ def wq (t : Tid) : List Warg → List WBuf
 def Pool.queue (p : Pool) (t : Tid) : List WBuf :=
   wq t p.writers ++ p.writeList.filter (fun b => b.tid = t)
 
+/-! ### The recorder's session around the pool (cmds/record.c), as driven by harness/c03_writer.c
+
+`shm` is `shmem_list_head` (buffers announced by REC_START and not yet ended; the list may hold one buffer
+twice: libmcount announces the first buffer of a fork child twice when the forking thread was unknown to it),
+`log` the buffers whose bytes were appended to a data file, in order.  A buffer is written with its current
+`size`; `write_buffer` sets `size = 0` afterwards, so a buffer that is reached a second time through another
+list entry (same shared memory) contributes nothing: `nonEmpty`. -/
+structure Sess where
+  shm : List WBuf := []
+  pool : Pool := {}
+  log : List WBuf := []
+  stopped : Bool := false      -- stop_all_writers: buf_done, control pipe closed
+  deriving Repr
+
+/-- `shmem_buf->size != 0` for a buffer the tracee filled once: nobody has written it yet -/
+def Sess.nonEmpty (s : Sess) (wb : WBuf) : Bool := !s.log.contains wb
+
+/-- record_mmap_file: a RECORDING buffer with data is queued (copy_to_buffer), anything else unmapped -/
+def Sess.mmapFile (s : Sess) (wb : WBuf) : Sess :=
+  if s.nonEmpty wb then { s with pool := s.pool.enqueue wb } else s
+
+/-- read_record_mmap, UFTRACE_MSG_REC_START: `list_add_tail(&sl->list, &shmem_list_head)` -/
+def Sess.recStart (s : Sess) (wb : WBuf) : Sess := { s with shm := s.shm ++ [wb] }
+
+/-- read_record_mmap, UFTRACE_MSG_REC_END: the first entry with that id is unlinked, then record_mmap_file -/
+def Sess.recEnd (s : Sess) (wb : WBuf) : Sess := ({ s with shm := s.shm.erase wb }).mmapFile wb
+
+/-- the bytes of one buffer reach the data file (write_buffer): logged when there are any -/
+def Sess.append (s : Sess) (wb : WBuf) : Sess :=
+  if s.nonEmpty wb then { s with log := s.log ++ [wb] } else s
+
+def Sess.pick (s : Sess) (i : Nat) : Option Sess :=
+  if s.stopped then none else (s.pool.pick i false).map fun p => { s with pool := p }
+
+/-- write_buf_list, one buffer -/
+def Sess.write (s : Sess) (i : Nat) : Option Sess :=
+  match s.pool.popHead i with
+  | none => none
+  | some (p, wb) => some ({ s with pool := p }.append wb)
+
+def Sess.splice (s : Sess) (i : Nat) : Option Sess :=
+  (s.pool.splice i).map fun p => { s with pool := p }
+
+/-- stop_all_writers + join: only with every writer back in poll() -/
+def Sess.stop (s : Sess) : Option Sess :=
+  if s.stopped || !s.pool.allIdle then none else some { s with stopped := true }
+
+/-- flush_shmem_list: every entry in list order through record_mmap_file -/
+def Sess.flushAll (s : Sess) : Sess :=
+  s.shm.foldl (fun a wb => a.mmapFile wb) { s with shm := [] }
+
+/-- record_remaining_buffer: everything left on buf_write_list, in order -/
+def Sess.remaining (s : Sess) : Sess :=
+  s.pool.writeList.foldl (fun a wb => a.append wb) { s with pool := { s.pool with writeList := [] } }
+
+/-- what the schedule of harness/c03_writer.c is made of -/
+inductive SOp where
+  | start (wb : WBuf) | fin (wb : WBuf) | pick (i : Nat) | write (i : Nat) | splice (i : Nat)
+  | stop | flushAll | remaining
+  deriving Repr
+
+def Sess.step (s : Sess) : SOp → Option Sess
+  | .start wb => some (s.recStart wb)
+  | .fin wb => some (s.recEnd wb)
+  | .pick i => s.pick i
+  | .write i => s.write i
+  | .splice i => s.splice i
+  | .stop => s.stop
+  | .flushAll => if s.stopped then some s.flushAll else none
+  | .remaining => if s.stopped then some s.remaining else none
+
+/-- a whole schedule; a step that is not enabled leaves the state as it is -/
+def Sess.run (s : Sess) : List SOp → Sess
+  | [] => s
+  | op :: ops => Sess.run ((s.step op).getD s) ops
+
+def Sess.init (nw : Nat) : Sess := { pool := { writers := List.replicate nw {} } }
+
 end Uft.Writers
